@@ -385,8 +385,10 @@ func ruleStreamMapGuarded(c *Ctx) {
 	// R26.2: a channel published in the shared map is closed only under the lock that excludes the sender
 	const r2 = "R26.2"
 	n := 0
+	// published channels of the whole package first (objects are canonical across an extracted
+	// register/unregister helper pair), then the closes
+	published := map[types.Object]bool{}
 	for _, s := range c.P.scopesOfPackage("replication") {
-		published := map[types.Object]bool{}
 		s.walk(func(m ast.Node) bool {
 			if as, ok := m.(*ast.AssignStmt); ok {
 				for i, l := range as.Lhs {
@@ -399,7 +401,8 @@ func ruleStreamMapGuarded(c *Ctx) {
 			}
 			return true
 		})
-
+	}
+	for _, s := range c.P.scopesOfPackage("replication") {
 		for _, site := range s.sites(func(sub, top ast.Node) bool {
 			cx, ok := sub.(*ast.CallExpr)
 			return ok && CalleeName(s.Info, cx) == "builtin.close" && len(cx.Args) == 1 && published[identObj(s.Info, cx.Args[0])]
